@@ -1,5 +1,461 @@
+(* U32sProofs.v - lemmas about the U32s model (model/U32s.v) against the big-integer spec (spec/U32sSpec.v).
+   N is an arbitrary nat throughout. *)
 From Coq Require Import ZArith Bool List Lia.
 From TF Require Import Word BFieldGen U32sGen U32s U32sSpec.
+From TF Require BFieldProofs.
 Import ListNotations.
 Open Scope Z_scope.
-Lemma u32s_value_nil : u32s_value [] = 0. Proof. reflexivity. Qed.
+Ltac Zify.zify_post_hook ::= Z.div_mod_to_equations.
+
+Notation B32 := 4294967296 (only parsing).
+Definition limb (x : Z) : Prop := 0 <= x < 2 ^ 32.
+Definition T (n : nat) : Z := 2 ^ (32 * Z.of_nat n).        (* 2^(32 n) *)
+Arguments T : simpl never.
+
+Lemma pow32 : 2 ^ 32 = B32. Proof. reflexivity. Qed.
+Lemma T_pos n : 0 < T n. Proof. unfold T. apply Z.pow_pos_nonneg; lia. Qed.
+Lemma T_0 : T 0 = 1. Proof. reflexivity. Qed.
+Lemma T_S n : T (S n) = B32 * T n.
+Proof.
+  unfold T. replace (32 * Z.of_nat (S n)) with (32 + 32 * Z.of_nat n) by lia.
+  rewrite Z.pow_add_r by lia. reflexivity.
+Qed.
+Lemma T_add n m : T (n + m) = T n * T m.
+Proof.
+  unfold T. replace (32 * Z.of_nat (n + m)) with (32 * Z.of_nat n + 32 * Z.of_nat m) by lia.
+  apply Z.pow_add_r; lia.
+Qed.
+Lemma T_le n m : (n <= m)%nat -> T n <= T m.
+Proof. intros H. unfold T. apply Z.pow_le_mono_r; lia. Qed.
+Lemma fits_T N v : u32s_fits N v <-> 0 <= v < T N.
+Proof. reflexivity. Qed.
+
+Lemma wf_iff N l : u32s_wf N l <-> length l = N /\ Forall limb l.
+Proof. reflexivity. Qed.
+
+(* ------------------------------------------------------------------ value *)
+Lemma value_cons x t : u32s_value (x :: t) = x + B32 * u32s_value t.
+Proof. reflexivity. Qed.
+
+Lemma value_range l : Forall limb l -> 0 <= u32s_value l < T (length l).
+Proof.
+  induction 1 as [|x t Hx Ht IH].
+  - cbn [length u32s_value]. rewrite T_0. lia.
+  - cbn [length]. rewrite T_S, value_cons. unfold limb in Hx. rewrite pow32 in Hx. lia.
+Qed.
+
+Lemma value_app a b : u32s_value (a ++ b) = u32s_value a + T (length a) * u32s_value b.
+Proof.
+  induction a as [|x a IH].
+  - cbn [app length u32s_value]. rewrite T_0. lia.
+  - cbn [app length]. rewrite !value_cons, IH, T_S. ring.
+Qed.
+
+Lemma value_repeat0 n : u32s_value (repeat 0 n) = 0.
+Proof. induction n; cbn [repeat]; [reflexivity|]. rewrite value_cons, IHn. reflexivity. Qed.
+
+Lemma Forall_repeat0 n : Forall limb (repeat 0 n).
+Proof. induction n; cbn; constructor; auto. unfold limb. rewrite pow32. lia. Qed.
+
+Lemma zero_wf N : u32s_wf N (u32s_zero N).
+Proof. split. apply repeat_length. apply Forall_repeat0. Qed.
+Lemma zero_value N : u32s_value (u32s_zero N) = 0.
+Proof. apply value_repeat0. Qed.
+
+Lemma value_inj a b : length a = length b -> Forall limb a -> Forall limb b ->
+  u32s_value a = u32s_value b -> a = b.
+Proof.
+  revert b. induction a as [|x a IH]; intros [|y b] Hl Ha Hb Hv; try discriminate; [reflexivity|].
+  inversion Ha as [|? ? Hx Ha']; inversion Hb as [|? ? Hy Hb']; subst.
+  rewrite !value_cons in Hv. unfold limb in Hx, Hy. rewrite pow32 in Hx, Hy.
+  assert (x = y /\ u32s_value a = u32s_value b) as [-> E] by lia.
+  f_equal. apply IH; auto.
+Qed.
+
+Lemma wf_value_inj N a b : u32s_wf N a -> u32s_wf N b -> u32s_value a = u32s_value b -> a = b.
+Proof. intros [La Fa] [Lb Fb]. apply value_inj; auto. congruence. Qed.
+
+Lemma wf_fits N l : u32s_wf N l -> u32s_fits N (u32s_value l).
+Proof. intros [L F]. apply fits_T. rewrite <- L. apply value_range; auto. Qed.
+
+Lemma is_zero_spec l : Forall limb l -> u32s_is_zero l = true <-> u32s_value l = 0.
+Proof.
+  induction 1 as [|x t Hx Ht IH]; cbn [u32s_is_zero forallb].
+  - cbn. tauto.
+  - rewrite value_cons. fold (u32s_is_zero t). rewrite andb_true_iff, IH, Z.eqb_eq.
+    pose proof (value_range t Ht). unfold limb in Hx. lia.
+Qed.
+
+(* ------------------------------------------------------------------ Add *)
+Lemma add_loop_spec : forall a b c, length a = length b -> Forall limb a -> Forall limb b ->
+  let '(r, cf) := u32s_add_loop c a b in
+  length r = length a /\ Forall limb r /\
+  u32s_value r + T (length a) * b2z cf = u32s_value a + u32s_value b + b2z c.
+Proof.
+  induction a as [|x a IH]; intros [|y b] c Hl Ha Hb; try discriminate.
+  - cbn. rewrite T_0. repeat split; auto; lia.
+  - inversion Ha as [|? ? Hx Ha']; inversion Hb as [|? ? Hy Hb']; subst.
+    cbn [u32s_add_loop].
+    unfold ovf_add at 1. cbv zeta. unfold ovf_add at 1. cbv zeta.
+    specialize (IH b ((2 ^ 32 <=? x + y) || (2 ^ 32 <=? wrap 32 (x + y) + b2z c)) ltac:(cbn in Hl; lia) Ha' Hb').
+    destruct (u32s_add_loop _ a b) as [t cf]. destruct IH as (L & F & V).
+    cbn [length]. rewrite T_S, !value_cons.
+    unfold limb in *. unfold wrap in *. rewrite pow32 in *.
+    assert (Hc : 0 <= b2z c <= 1) by (destruct c; cbn; lia).
+    split; [lia|]. split.
+    + constructor; auto. lia.
+    + destruct (B32 <=? x + y) eqn:E1; destruct (B32 <=? (x + y) mod B32 + b2z c) eqn:E2;
+        cbn [orb b2z] in V; lia.
+Qed.
+
+Theorem add_spec N a b : u32s_wf N a -> u32s_wf N b ->
+  match u32s_add a b with
+  | Some r => u32s_wf N r /\ u32s_value r = u32s_value a + u32s_value b
+  | None => T N <= u32s_value a + u32s_value b
+  end.
+Proof.
+  intros [La Fa] [Lb Fb]. unfold u32s_add.
+  pose proof (add_loop_spec a b false ltac:(congruence) Fa Fb) as H.
+  destruct (u32s_add_loop false a b) as [r cf]. destruct H as (L & F & V).
+  rewrite La in *. pose proof (value_range r F) as R. rewrite L in R.
+  destruct cf; cbn [b2z] in V.
+  - lia.
+  - split; [split; auto; lia|lia].
+Qed.
+
+(* ------------------------------------------------------------------ Sub *)
+Lemma sub_loop_spec : forall a b c, length a = length b -> Forall limb a -> Forall limb b ->
+  let '(r, cf) := u32s_sub_loop c a b in
+  length r = length a /\ Forall limb r /\
+  u32s_value r - T (length a) * b2z cf = u32s_value a - u32s_value b - b2z c.
+Proof.
+  induction a as [|x a IH]; intros [|y b] c Hl Ha Hb; try discriminate.
+  - cbn. rewrite T_0. repeat split; auto; lia.
+  - inversion Ha as [|? ? Hx Ha']; inversion Hb as [|? ? Hy Hb']; subst.
+    cbn [u32s_sub_loop].
+    unfold ovf_sub at 1. cbv zeta. unfold ovf_sub at 1. cbv zeta.
+    specialize (IH b ((x <? y) || (wrap 32 (x - y) <? b2z c)) ltac:(cbn in Hl; lia) Ha' Hb').
+    destruct (u32s_sub_loop _ a b) as [t cf]. destruct IH as (L & F & V).
+    cbn [length]. rewrite T_S, !value_cons.
+    unfold limb in *. unfold wrap in *. rewrite pow32 in *.
+    assert (Hc : 0 <= b2z c <= 1) by (destruct c; cbn; lia).
+    split; [lia|]. split.
+    + constructor; auto. lia.
+    + destruct (x <? y) eqn:E1; destruct ((x - y) mod B32 <? b2z c) eqn:E2;
+        cbn [orb b2z] in V; lia.
+Qed.
+
+Theorem sub_spec N a b : u32s_wf N a -> u32s_wf N b ->
+  match u32s_sub a b with
+  | Some r => u32s_wf N r /\ u32s_value r = u32s_value a - u32s_value b
+  | None => u32s_value a - u32s_value b < 0
+  end.
+Proof.
+  intros [La Fa] [Lb Fb]. unfold u32s_sub.
+  pose proof (sub_loop_spec a b false ltac:(congruence) Fa Fb) as H.
+  destruct (u32s_sub_loop false a b) as [r cf]. destruct H as (L & F & V).
+  rewrite La in *. pose proof (value_range r F) as R. rewrite L in R.
+  destruct cf; cbn [b2z] in V.
+  - lia.
+  - split; [split; auto; lia|lia].
+Qed.
+
+(* ------------------------------------------------------------------ mul_two *)
+Lemma mul_two_loop_spec : forall l c, Forall limb l ->
+  let '(r, cf) := u32s_mul_two_loop c l in
+  length r = length l /\ Forall limb r /\
+  u32s_value r + T (length l) * b2z cf = 2 * u32s_value l + b2z c.
+Proof.
+  induction l as [|x l IH]; intros c Hl.
+  - cbn. rewrite T_0. repeat split; auto; lia.
+  - inversion Hl as [|? ? Hx Hl']; subst.
+    cbn [u32s_mul_two_loop]. unfold ovf_mul, ovf_add. cbv zeta.
+    specialize (IH ((2 ^ 32 <=? wrap 32 (x * 2) + b2z c) || (2 ^ 32 <=? x * 2)) Hl').
+    destruct (u32s_mul_two_loop _ l) as [t cf]. destruct IH as (L & F & V).
+    cbn [length]. rewrite T_S, !value_cons.
+    unfold limb in *. unfold wrap in *. rewrite pow32 in *.
+    assert (Hc : 0 <= b2z c <= 1) by (destruct c; cbn; lia).
+    split; [lia|]. split.
+    + constructor; auto. lia.
+    + destruct (B32 <=? (x * 2) mod B32 + b2z c) eqn:E1; destruct (B32 <=? x * 2) eqn:E2;
+        cbn [orb b2z] in V; lia.
+Qed.
+
+Theorem mul_two_spec N l : u32s_wf N l ->
+  match u32s_mul_two l with
+  | Some r => u32s_wf N r /\ u32s_value r = 2 * u32s_value l
+  | None => T N <= 2 * u32s_value l
+  end.
+Proof.
+  intros [L0 F0]. unfold u32s_mul_two.
+  pose proof (mul_two_loop_spec l false F0) as H.
+  destruct (u32s_mul_two_loop false l) as [r cf]. destruct H as (L & F & V).
+  rewrite L0 in *. pose proof (value_range r F) as R. rewrite L in R.
+  destruct cf; cbn [b2z] in V.
+  - lia.
+  - split; [split; auto; lia|lia].
+Qed.
+
+(* ------------------------------------------------------------------ div_two *)
+Lemma land_1 x : Z.land x 1 = x mod 2.
+Proof. change 1 with (Z.ones 1) at 1. rewrite Z.land_ones by lia. reflexivity. Qed.
+
+Lemma div_two_fold_spec l : Forall limb l ->
+  let '(acc, carry) := fold_right u32s_div_two_step ([], false) l in
+  length acc = length l /\ Forall limb acc /\ 2 * u32s_value acc + b2z carry = u32s_value l.
+Proof.
+  induction 1 as [|x t Hx Ht IH].
+  - cbn. repeat split; auto.
+  - cbn [fold_right]. destruct (fold_right u32s_div_two_step ([], false) t) as [acc carry].
+    destruct IH as (L & F & V). unfold u32s_div_two_step.
+    rewrite land_1. unfold wshr. change (wshl 32 1 31) with 2147483648. change (2 ^ 1) with 2.
+    cbn [length]. rewrite !value_cons. unfold limb in *. rewrite pow32 in *.
+    split; [lia|]. split.
+    + constructor; auto. destruct carry; lia.
+    + destruct (x mod 2 =? 1) eqn:E; destruct carry; cbn [b2z] in *; lia.
+Qed.
+
+Theorem div_two_spec N l : u32s_wf N l ->
+  u32s_wf N (u32s_div_two l) /\ u32s_value (u32s_div_two l) = u32s_value l / 2.
+Proof.
+  intros [L0 F0]. unfold u32s_div_two.
+  pose proof (div_two_fold_spec l F0) as H.
+  destruct (fold_right u32s_div_two_step ([], false) l) as [acc carry]. destruct H as (L & F & V).
+  cbn [fst]. split; [split; auto; lia|].
+  assert (0 <= b2z carry <= 1) by (destruct carry; cbn; lia). lia.
+Qed.
+
+(* ------------------------------------------------------------------ Ord *)
+Lemma lex_cmp_spec : forall a b, length a = length b -> Forall limb a -> Forall limb b ->
+  lex_cmp a b = (u32s_value (rev a) ?= u32s_value (rev b)).
+Proof.
+  induction a as [|x a IH]; intros [|y b] Hl Ha Hb; try discriminate.
+  - reflexivity.
+  - inversion Ha as [|? ? Hx Ha']; inversion Hb as [|? ? Hy Hb']; subst.
+    cbn [lex_cmp rev]. rewrite !value_app, !rev_length. cbn [u32s_value].
+    assert (Hlen : length a = length b) by (cbn in Hl; lia).
+    pose proof (value_range (rev a) ltac:(apply Forall_rev; auto)) as Ra.
+    pose proof (value_range (rev b) ltac:(apply Forall_rev; auto)) as Rb.
+    rewrite rev_length in Ra, Rb. rewrite <- Hlen in *.
+    pose proof (T_pos (length a)) as Tp. set (t := T (length a)) in *.
+    rewrite !Z.mul_0_r, !Z.add_0_r.
+    destruct (Z.compare_spec x y) as [E|E|E].
+    + subst y. rewrite IH by auto.
+      destruct (Z.compare_spec (u32s_value (rev a)) (u32s_value (rev b))); symmetry;
+        [apply Z.compare_eq_iff|apply Z.compare_lt_iff|apply Z.compare_gt_iff]; lia.
+    + symmetry. apply Z.compare_lt_iff.
+      assert (t * (x + 1) <= t * y) by (apply Z.mul_le_mono_nonneg_l; lia). lia.
+    + symmetry. apply Z.compare_gt_iff.
+      assert (t * (y + 1) <= t * x) by (apply Z.mul_le_mono_nonneg_l; lia). lia.
+Qed.
+
+Theorem cmp_spec N a b : u32s_wf N a -> u32s_wf N b ->
+  u32s_cmp a b = (u32s_value a ?= u32s_value b).
+Proof.
+  intros [La Fa] [Lb Fb]. unfold u32s_cmp.
+  rewrite lex_cmp_spec by (rewrite ?rev_length; try congruence; apply Forall_rev; auto).
+  rewrite !rev_involutive. reflexivity.
+Qed.
+
+Lemma ge_spec N a b : u32s_wf N a -> u32s_wf N b ->
+  u32s_ge a b = (u32s_value b <=? u32s_value a).
+Proof.
+  intros Ha Hb. unfold u32s_ge. rewrite (cmp_spec N) by auto.
+  destruct (Z.compare_spec (u32s_value a) (u32s_value b)); symmetry;
+    [apply Z.leb_le|apply Z.leb_gt|apply Z.leb_le]; lia.
+Qed.
+
+Lemma eqb_spec N a b : u32s_wf N a -> u32s_wf N b ->
+  u32s_eqb a b = (u32s_value a =? u32s_value b).
+Proof.
+  intros Ha Hb.
+  assert (E : u32s_eqb a b = true <-> a = b).
+  { clear. revert b. induction a as [|x a IH]; intros [|y b]; cbn; try (split; [discriminate|discriminate]).
+    - tauto.
+    - rewrite andb_true_iff, Z.eqb_eq, IH. split; [intros [-> ->]; reflexivity|intros H; inversion H; auto]. }
+  destruct (Z.eqb_spec (u32s_value a) (u32s_value b)) as [Hv|Hv].
+  - apply E. apply (wf_value_inj N); auto.
+  - destruct (u32s_eqb a b) eqn:Eb; [|reflexivity]. exfalso. apply Hv. f_equal. apply E. reflexivity.
+Qed.
+
+(* ------------------------------------------------------------------ single-limb bit operations *)
+Lemma pow2_e_range e : 0 <= e < 32 -> 0 < 2 ^ e < B32.
+Proof.
+  intros H. split. apply Z.pow_pos_nonneg; lia.
+  change B32 with (2 ^ 32). apply Z.pow_lt_mono_r; lia.
+Qed.
+
+Lemma wshl_1 e : 0 <= e < 32 -> wshl 32 1 e = 2 ^ e.
+Proof.
+  intros H. unfold wshl, wrap. rewrite Z.mul_1_l. apply Z.mod_small.
+  pose proof (pow2_e_range e H). rewrite pow32. lia.
+Qed.
+
+Lemma wshl_b v e : 0 <= e < 32 -> wshl 32 (b2z v) e = b2z v * 2 ^ e.
+Proof.
+  intros H. unfold wshl, wrap. apply Z.mod_small.
+  pose proof (pow2_e_range e H). rewrite pow32. destruct v; cbn [b2z]; lia.
+Qed.
+
+(* x & 2^e isolates bit e *)
+Lemma land_pow2 x e : 0 <= e -> Z.land x (2 ^ e) = 2 ^ e * ((x / 2 ^ e) mod 2).
+Proof.
+  intros He. rewrite <- Z.testbit_spec' by lia.
+  apply Z.bits_inj'. intros n Hn. rewrite Z.land_spec, Z.pow2_bits_eqb by lia.
+  destruct (Z.testbit x e) eqn:Eb; cbn [Z.b2z].
+  - rewrite Z.mul_1_r, Z.pow2_bits_eqb by lia.
+    destruct (Z.eqb_spec e n) as [->|]; [rewrite Eb; reflexivity|apply andb_false_r].
+  - rewrite Z.mul_0_r, Z.bits_0.
+    destruct (Z.eqb_spec e n) as [->|]; [rewrite Eb; reflexivity|apply andb_false_r].
+Qed.
+
+(* x = (x & m) + (x & !m) *)
+Lemma land_split x m : Z.land x m + Z.land x (Z.lnot m) = x.
+Proof.
+  rewrite Z.add_nocarry_lxor, Z.lxor_lor.
+  - rewrite <- Z.land_lor_distr_r, Z.lor_lnot_diag. apply Z.land_m1_r.
+  - rewrite Z.land_assoc, (Z.land_comm (Z.land x m) x), Z.land_assoc, Z.land_diag,
+      <- Z.land_assoc, Z.land_lnot_diag. apply Z.land_0_r.
+  - rewrite Z.land_assoc, (Z.land_comm (Z.land x m) x), Z.land_assoc, Z.land_diag,
+      <- Z.land_assoc, Z.land_lnot_diag. apply Z.land_0_r.
+Qed.
+
+Lemma land_wnot x m : limb x -> 0 <= m < B32 -> Z.land x (wnot 32 m) = Z.land x (Z.lnot m).
+Proof.
+  intros Hx Hm. unfold limb in Hx. rewrite pow32 in Hx.
+  assert (E : wnot 32 m = Z.land (Z.lnot m) (Z.ones 32)).
+  { rewrite Z.land_ones by lia. unfold wnot, Z.lnot. rewrite pow32. lia. }
+  rewrite E, (Z.land_comm (Z.lnot m)), Z.land_assoc, Z.land_ones by lia.
+  rewrite pow32, Z.mod_small by lia. reflexivity.
+Qed.
+
+Definition bit_of (x e : Z) : Z := (x / 2 ^ e) mod 2.
+
+Lemma lor_limb a b : limb a -> limb b -> limb (Z.lor a b).
+Proof.
+  unfold limb. intros Ha Hb. split. apply Z.lor_nonneg; lia.
+  destruct (Z.eq_dec (Z.lor a b) 0) as [->|Hn]; [reflexivity|].
+  apply Z.log2_lt_pow2.
+  - assert (0 <= Z.lor a b) by (apply Z.lor_nonneg; lia). lia.
+  - rewrite Z.log2_lor by lia.
+    assert (Z.log2 a < 32) by (destruct (Z.eq_dec a 0) as [->|]; [cbn; lia|apply Z.log2_lt_pow2; lia]).
+    assert (Z.log2 b < 32) by (destruct (Z.eq_dec b 0) as [->|]; [cbn; lia|apply Z.log2_lt_pow2; lia]).
+    lia.
+Qed.
+
+Lemma limb_get_bit x e : limb x -> 0 <= e < 32 ->
+  negb (Z.land x (wshl 32 1 e) =? 0) = (bit_of x e =? 1).
+Proof.
+  intros Hx He. rewrite wshl_1, land_pow2 by lia. fold (bit_of x e).
+  pose proof (pow2_e_range e He). assert (0 <= bit_of x e < 2) by (unfold bit_of; apply Z.mod_pos_bound; lia).
+  destruct (Z.eqb_spec (bit_of x e) 1) as [->|Hn].
+  - rewrite Z.mul_1_r. destruct (Z.eqb_spec (2 ^ e) 0); [lia|reflexivity].
+  - assert (bit_of x e = 0) as -> by lia. rewrite Z.mul_0_r. reflexivity.
+Qed.
+
+Lemma limb_set_bit x e v : limb x -> 0 <= e < 32 ->
+  let x' := Z.lor (Z.land x (wnot 32 (wshl 32 1 e))) (wshl 32 (b2z v) e) in
+  limb x' /\ x' = x - 2 ^ e * bit_of x e + 2 ^ e * b2z v.
+Proof.
+  intros Hx He. cbv zeta. pose proof (pow2_e_range e He) as Hp.
+  rewrite wshl_1, wshl_b by lia. rewrite land_wnot by (auto; lia).
+  pose proof (land_split x (2 ^ e)) as S. rewrite land_pow2 in S by lia. fold (bit_of x e) in S.
+  set (c := Z.land x (Z.lnot (2 ^ e))) in *.
+  assert (Hb : 0 <= bit_of x e < 2) by (unfold bit_of; apply Z.mod_pos_bound; lia).
+  assert (Ec : c = x - 2 ^ e * bit_of x e) by lia.
+  assert (Hc0 : 0 <= c) by (subst c; apply Z.land_nonneg; left; unfold limb in Hx; lia).
+  assert (Hc : limb c).
+  { unfold limb in *. rewrite pow32 in *. split; [lia|]. assert (0 <= 2 ^ e * bit_of x e) by (apply Z.mul_nonneg_nonneg; lia). lia. }
+  assert (Hv : limb (b2z v * 2 ^ e)).
+  { unfold limb. rewrite pow32. destruct v; cbn [b2z]; lia. }
+  split. apply lor_limb; auto.
+  destruct v; cbn [b2z].
+  - rewrite Z.mul_1_l, Z.mul_1_r.
+    assert (Z.land c (2 ^ e) = 0).
+    { rewrite land_pow2 by lia.
+      assert ((c / 2 ^ e) mod 2 = 0); [|lia].
+      rewrite Ec. unfold bit_of. set (p := 2 ^ e) in *. set (q := x / p).
+      assert (x = p * q + x mod p) by (apply Z.div_mod; lia).
+      assert (0 <= x mod p < p) by (apply Z.mod_pos_bound; lia).
+      replace (x - p * (q mod 2)) with ((q - q mod 2) * p + x mod p) by lia.
+      rewrite Z.div_add_l, Z.div_small by lia. lia. }
+    rewrite <- Z.lxor_lor, <- Z.add_nocarry_lxor by auto. lia.
+  - rewrite Z.mul_0_l, Z.lor_0_r. lia.
+Qed.
+
+(* ------------------------------------------------------------------ arrays *)
+Lemma upd_spec : forall l k x v, nth_error l k = Some x ->
+  exists l', u32s_upd l k v = Some l' /\ length l' = length l /\
+    u32s_value l' = u32s_value l + T k * (v - x) /\
+    (limb v -> Forall limb l -> Forall limb l').
+Proof.
+  induction l as [|y l IH]; intros [|k] x v H; try discriminate.
+  - cbn in H. injection H as ->. exists (v :: l). cbn [u32s_upd length]. rewrite !value_cons, T_0.
+    repeat split; auto; [lia|]. intros Hv Hl. inversion Hl; subst. constructor; auto.
+  - cbn in H. destruct (IH k x v H) as (l' & E & L & V & F).
+    exists (y :: l'). cbn [u32s_upd length]. rewrite E. cbn [option_map]. rewrite !value_cons, V, T_S.
+    repeat split; auto; [lia|]. intros Hv Hl. inversion Hl; subst. constructor; auto.
+Qed.
+
+Lemma nth_error_bit : forall l k x e, Forall limb l -> nth_error l k = Some x -> 0 <= e < 32 ->
+  bit_of (u32s_value l) (32 * Z.of_nat k + e) = bit_of x e.
+Proof.
+  induction l as [|y l IH]; intros [|k] x e Hl H He; try discriminate;
+    inversion Hl as [|? ? Hy Hl']; subst; unfold limb in Hy; rewrite pow32 in Hy.
+  - cbn in H. injection H as ->. rewrite value_cons. unfold bit_of.
+    replace (32 * Z.of_nat 0 + e) with e by lia.
+    pose proof (pow2_e_range e He) as Hp.
+    assert (E : B32 = 2 ^ e * (2 * 2 ^ (31 - e))).
+    { rewrite <- (Z.pow_succ_r 2 (31 - e)), <- Z.pow_add_r by lia. replace (e + Z.succ (31 - e)) with 32 by lia. reflexivity. }
+    rewrite E. replace (x + 2 ^ e * (2 * 2 ^ (31 - e)) * u32s_value l) with (x + (2 ^ (31 - e) * u32s_value l * 2) * 2 ^ e) by ring.
+    rewrite Z.div_add by lia. rewrite Z.mod_add by lia. reflexivity.
+  - cbn in H. rewrite value_cons. unfold bit_of in *. rewrite <- (IH k x e Hl' H He).
+    replace (32 * Z.of_nat (S k) + e) with (32 + (32 * Z.of_nat k + e)) by lia.
+    rewrite Z.pow_add_r by lia. rewrite <- Z.div_div by (try apply Z.pow_pos_nonneg; lia).
+    rewrite pow32. replace (y + B32 * u32s_value l) with (y + u32s_value l * B32) by ring.
+    rewrite Z.div_add by lia. rewrite (Z.div_small y) by lia. reflexivity.
+Qed.
+
+Lemma bit_index_split (l : list Z) i : 0 <= i < 32 * Z.of_nat (length l) ->
+  exists k e x, Z.to_nat (i / 32) = k /\ i mod 32 = e /\ nth_error l k = Some x /\ 0 <= e < 32 /\
+                i = 32 * Z.of_nat k + e.
+Proof.
+  intros H. assert (Hk : (Z.to_nat (i / 32) < length l)%nat) by (apply Nat2Z.inj_lt; rewrite Z2Nat.id; lia).
+  destruct (nth_error l (Z.to_nat (i / 32))) as [x|] eqn:E.
+  - exists (Z.to_nat (i / 32)), (i mod 32), x. repeat split; auto; try lia. rewrite Z2Nat.id by lia. lia.
+  - apply nth_error_None in E. lia.
+Qed.
+
+Theorem get_bit_spec l i : Forall limb l -> 0 <= i ->
+  if i <? 32 * Z.of_nat (length l)
+  then exists b, u32s_get_bit l i = Some b /\ b2z b = bit_of (u32s_value l) i
+  else u32s_get_bit l i = None.
+Proof.
+  intros Hl Hi. unfold u32s_get_bit, u32s_get. destruct (Z.ltb_spec i (32 * Z.of_nat (length l))) as [H|H]; [|reflexivity].
+  destruct (bit_index_split l i ltac:(lia)) as (k & e & x & Ek & Ee & E & He & Ei). rewrite Ek, Ee, E.
+  eexists. split; [reflexivity|].
+  assert (Hx : limb x) by (eapply Forall_forall; [exact Hl|eapply nth_error_In; exact E]).
+  rewrite limb_get_bit by auto. rewrite Ei. rewrite (nth_error_bit l k x) by auto.
+  assert (0 <= bit_of x e < 2) by (unfold bit_of; apply Z.mod_pos_bound; lia).
+  destruct (Z.eqb_spec (bit_of x e) 1); cbn [b2z]; lia.
+Qed.
+
+Theorem set_bit_spec N l i v : u32s_wf N l -> 0 <= i ->
+  if i <? 32 * Z.of_nat N
+  then exists l', u32s_set_bit l i v = Some l' /\ u32s_wf N l' /\
+         u32s_value l' = u32s_value l - 2 ^ i * bit_of (u32s_value l) i + 2 ^ i * b2z v
+  else u32s_set_bit l i v = None.
+Proof.
+  intros [L Hl] Hi. unfold u32s_set_bit, u32s_get. rewrite L.
+  destruct (Z.ltb_spec i (32 * Z.of_nat N)) as [H|H]; [|reflexivity].
+  destruct (bit_index_split l i ltac:(lia)) as (k & e & x & Ek & Ee & E & He & Ei). rewrite Ek, Ee, E.
+  assert (Hx : limb x) by (eapply Forall_forall; [exact Hl|eapply nth_error_In; exact E]).
+  pose proof (limb_set_bit x e v Hx He) as [Hx' Ex']. cbv zeta in Hx', Ex'.
+  destruct (upd_spec l k x (Z.lor (Z.land x (wnot 32 (wshl 32 1 e))) (wshl 32 (b2z v) e)) E)
+    as (l' & U & L' & V & F).
+  exists l'. split; [exact U|]. split; [split; [lia|auto]|].
+  rewrite V, Ex'. rewrite Ei. rewrite (nth_error_bit l k x) by auto.
+  assert (Ep : 2 ^ (32 * Z.of_nat k + e) = T k * 2 ^ e).
+  { unfold T. rewrite Z.pow_add_r by lia. reflexivity. }
+  rewrite Ep. ring.
+Qed.
